@@ -477,6 +477,27 @@ pub fn text_program(rng: &mut Rng) -> String {
     s
 }
 
+/// White space that is not ASCII (char::is_whitespace / rustc's lexer accept it) in the places where rustfmt computes
+/// byte offsets from character or line counts: between items, after comments, in front of the `*` of a block-comment
+/// line, at line ends, inside blank lines.
+pub fn blank_program(rng: &mut Rng) -> String {
+    const WS: &[&str] = &["\u{2028}", "\u{2029}", "\u{85}", "\u{3000}", "\u{a0}", "\u{2003}", "\u{200e}", "\u{200f}", "\u{b}", "\u{c}", " ", "\t", "\r"];
+    let w = |rng: &mut Rng| -> String { (0..rng.range(1, 3)).map(|_| *rng.pick(WS)).collect() };
+    let mut s = String::new();
+    for i in 0..rng.range(1, 4) {
+        match rng.below(7) {
+            0 => s.push_str(&format!("fn a{}() {{}}\n// c\n{}\nfn b{}() {{}}\n", i, w(rng), i)),
+            1 => s.push_str(&format!("fn a{}() {{\n    /* a\n{}* b\n     */\n    let x = 1;{}\n}}\n", i, w(rng), w(rng))),
+            2 => s.push_str(&format!("/* a\n{}* b\n{}*/\nfn c{}() {{}}\n", w(rng), w(rng), i)),
+            3 => s.push_str(&format!("struct S{} {{\n    a: u32,{}// c{}\n{}\n    b: u32,\n}}\n", i, w(rng), w(rng), w(rng))),
+            4 => s.push_str(&format!("fn d{}() {{\n    call(a,{}/* x */{}b);{}\n{}\n    // e\n{}}}\n", i, w(rng), w(rng), w(rng), w(rng), w(rng))),
+            5 => s.push_str(&format!("{}\n{}fn e{}() {{}}{}\n{}", w(rng), w(rng), i, w(rng), w(rng))),
+            _ => s.push_str(&format!("use a::{{b,{}c}};{}\n{}\nmod m{} {{{}\n}}\n", w(rng), w(rng), w(rng), i, w(rng))),
+        }
+    }
+    s
+}
+
 const NUM_LITS: &[&str] = &[
     "0", "1", "1.", "1.0", "1.0e5", "1e5", "1e+5", "1E-5", "0x1f", "0XFF", "0xdead_beef", "0b1f32", "0b101", "0o17", "1f32", "1_f32", "1.f32", "1._0", "0x1p3", "1e", "0x", "0b", "1_000_000", "0.0.0", "1..2", "1.e1", "0e0", "0E0f64", "0b1e3", "0x1e3", "0xe+1", "1u8", "1usize", "1i128", "0b1_u8", "1.0E+10_f64", "00012", "0_0", "1e1_0", "9999999999999999999999999999", "0xFFFF_FFFF_FFFF_FFFF_FFFF",
 ];
